@@ -158,6 +158,7 @@ pub fn build(case: &Case) -> Built {
             write_max: None,
             repeat: None,
             repeat_cap: 0,
+            write_fail_at: None,
         },
         body_start,
         pmax,
